@@ -649,8 +649,25 @@ func runTask(t *task, wg *sync.WaitGroup, f func()) {
 	normal = true
 }
 
-// Go starts f as a new task. The caller has already evaluated the callee and its arguments.
-func Go(site int, f func()) {
+// Go1 .. Go4 start f(a...) as a new task; callee and arguments are evaluated by the caller, as in a go statement.
+func Go1[A any](site int, f func(A), a A) { Go0(site, func() { f(a) }) }
+
+// Go2 see Go1.
+func Go2[A, B any](site int, f func(A, B), a A, b B) { Go0(site, func() { f(a, b) }) }
+
+// Go3 see Go1.
+func Go3[A, B, C any](site int, f func(A, B, C), a A, b B, c C) { Go0(site, func() { f(a, b, c) }) }
+
+// Go4 see Go1.
+func Go4[A, B, C, D any](site int, f func(A, B, C, D), a A, b B, c C, d D) {
+	Go0(site, func() { f(a, b, c, d) })
+}
+
+// Go is Go0.
+func Go(site int, f func()) { Go0(site, f) }
+
+// Go0 starts f as a new task. The caller has already evaluated the callee and its arguments.
+func Go0(site int, f func()) {
 	if !Active() {
 		go f()
 		return
@@ -844,6 +861,7 @@ func reset(p Params) {
 		s.probes[i] = 0
 	}
 	npanics = 0
+	resetCaches()
 }
 
 //go:norace
